@@ -34,6 +34,12 @@ DecodeVector ==
 
 EmitDecode == mode = "decode" => PrintT(ToJson(DecodeVector))
 
+\* The API forms that leave a group header with blockLength, the counters and
+\* numInGroup = n: fill_group_header(g, n), or fill_group_header with another
+\* count followed by resize(n) / clear() ("resize/clear change only numInGroup").
+GroupForms(n) == <<"fill", "fill_zero_then_resize", "fill_other_then_resize">>
+                 \o (IF n = 0 THEN <<"fill_other_then_clear">> ELSE <<>>)
+
 \* The API forms through which the value `val` can be given to a <data> member.
 \* Each is documented (dynamic_array_ref reference) to leave the container with
 \* size() = Len(val) and these elements, i.e. the same length prefix and payload:
@@ -60,7 +66,9 @@ StepInfo(st) ==
       val |-> CASE st.op = "set" -> LeafVal(sh, st.li, st.k, st.ip, LLeaves[st.li][st.k])
                 [] st.op = "data" -> DataVal(sh, st.li, st.k, st.ip)
                 [] OTHER -> <<>>,
-      forms |-> IF st.op = "data" THEN DataForms(DataVal(sh, st.li, st.k, st.ip)) ELSE <<>>,
+      forms |-> CASE st.op = "data" -> DataForms(DataVal(sh, st.li, st.k, st.ip))
+                  [] st.op = "ghdr" -> GroupForms(Cnt(sh, ChildLi(MI, st.li, st.k), st.ip))
+                  [] OTHER -> <<>>,
       n |-> IF st.op = "ghdr" THEN Cnt(sh, ChildLi(MI, st.li, st.k), st.ip) ELSE 0,
       ret |-> CASE st.op = "mhdr" -> V0
                 [] st.op = "ghdr" -> OpGroupOf(buf, st.li, st.ip, st.k)
